@@ -10,8 +10,8 @@ for pid in ids:
     am = json.load(open(f"{d}/author_meta.json")) if os.path.exists(f"{d}/author_meta.json") else {}
     v = json.load(open(f"{d}/verification.json"))
     old = json.load(open(f"{d}/meta.json")) if os.path.exists(f"{d}/meta.json") else {}
-    meta = {"property": pid, "breaks": am.get("summary"), "needs_to_manifest": am.get("needs_to_manifest"), "files_changed": am.get("files_changed"),
-            "author_tests_run": am.get("tests_run"),
+    meta = {"property": pid, "breaks": am.get("summary") or am.get("breaks"), "needs_to_manifest": am.get("needs_to_manifest"), "files_changed": am.get("files_changed"),
+            "author_tests_run": am.get("tests_run") or am.get("author_tests_run"),
             "what_i_ran": [f"tools/seedcheck.py {pid}: git apply of patch.diff onto an export of /repo HEAD under /dev/shm; demo.py against patched and unpatched lib; "
                            f"./check <ID> --tier quick with VERIF_REPO=<patched copy> for {list(v.get('checks', {}))}"],
             "patch_applies_to_head": v.get("patch_applies_to_head"), "demo_exit_with_patch": v.get("demo_exit_with_patch"),
